@@ -16,7 +16,8 @@ Import ListNotations.
 
 HDR_NAMES = [b"content-length", b"content-type", b"accept", b"x-forwarded-for", b"cookie", b"x-a-b", b"host", b"Accept", b"x_a_b"]
 HDR_VALUES = [b"1", b"text/html; charset=utf-8", b"a,b", b"", b"caf\xe9", b"x y", b"*/*"]
-PATHS = ["/", "/app", "/app/", "/app/x", "/café/€", "/a b", "", "/apple", "/\U0001F600", "/app/x%2Fy"]
+PATHS = ["/", "/app", "/app/", "/app/x", "/café/€", "/a b", "", "/apple", "/\U0001F600", "/app/x%2Fy",
+         "/app/static/app/logo.png", "/a/b/a/c", "/app/app", "/café/x/café", "/a/a"]     # the mount prefix occurs again further down
 ROOTS = ["", "", "/app", "/app/", "/café", "/nope", "/a"]
 
 
